@@ -57,7 +57,8 @@ func drawNet(r *simkit.Run, prof string) *NetCfg {
 		SubsidyInterval: []int32{150, 10, 3}[c.Intn(3, "halving")],
 		Window:          8, Threshold: 6,
 	}
-	if prof == "retarget" || (prof == "headers" && c.Bool(300, "hdr-retarget")) {
+	poolRetarget := prof == "pool" && r.Property == "C12" && c.Bool(250, "pool-retarget")
+	if prof == "retarget" || (prof == "headers" && c.Bool(300, "hdr-retarget")) || poolRetarget {
 		// synthetic difficulty parameters: short retarget interval, clamps,
 		// testnet min-difficulty rule, BIP94, or a no-retarget network
 		d := &n.Diff
@@ -76,6 +77,13 @@ func drawNet(r *simkit.Run, prof string) *NetCfg {
 			d.PowLimit, _, _ = compactToBig(d.PowLimitBits)
 		}
 		n.SubsidyInterval = []int32{150, 10, 3, 1}[c.Intn(4, "halving2")]
+		if poolRetarget {
+			// templates on a network whose required difficulty depends on
+			// the block's own time (the testnet 20-minute rule), mostly
+			d.NoRetarget = false
+			d.ReduceMinDiff = !c.Bool(200, "pool-no-min-diff-rule")
+			n.SubsidyInterval = 150
+		}
 	}
 	if (prof == "consensus" || prof == "utxo") && c.Bool(150, "pre-bip34-network") {
 		// a network on which BIP34/65/66 never activate during the run:
@@ -197,7 +205,7 @@ func run(r *simkit.Run) {
 		return
 	}
 
-	if prof == "pool" && c.Bool(60, "tall-chain") {
+	if prof == "pool" && net.Diff.NoRetarget && c.Bool(60, "tall-chain") {
 		// templates at heights whose serialized number needs a sign pad
 		// byte (128..255) or a second byte
 		n := 124 + c.Intn(8, "tall-n")
@@ -597,7 +605,7 @@ func run(r *simkit.Run) {
 		case 0: // mine a block somewhere
 			parent := s.pickParent()
 			o := BlockOpts{NTx: c.Intn(maxTx+1, "ntx")}
-			if prof == "retarget" || prof == "headers" {
+			if prof == "retarget" || prof == "headers" || !w.Net.Diff.NoRetarget {
 				o.TsDelta = s.steerTimestamp(parent)
 			}
 			if prof == "votes" {
